@@ -30,6 +30,9 @@ pub enum Op {
     /// crash during the preceding (acknowledged) append: only its first `keep` records survive,
     /// plus `extra` bytes of the next record (a torn record)
     Crash { keep: usize, extra: usize },
+    /// adaptive (expanded by the executor into plain appends): fill the live segment of key k's bucket so
+    /// that the free space is `estimate(next single incompressible event of payload len) + delta`, then append it
+    FillWindow { k: usize, delta: i64, len: usize },
 }
 
 #[derive(Clone, Debug)]
@@ -55,6 +58,7 @@ impl Hist {
                 Op::PSeq { pid } => { let _ = write!(s, "PS {pid}"); }
                 Op::Reopen => s.push_str("RO"),
                 Op::Crash { keep, extra } => { let _ = write!(s, "CR {keep} {extra}"); }
+                Op::FillWindow { k, delta, len } => { let _ = write!(s, "FW {k} {delta} {len}"); }
             }
         }
         s
@@ -104,6 +108,7 @@ impl Hist {
                 "PS" => Op::PSeq { pid: t[1].parse().ok()? },
                 "RO" => Op::Reopen,
                 "CR" => Op::Crash { keep: t[1].parse().ok()?, extra: t[2].parse().ok()? },
+                "FW" => Op::FillWindow { k: t[1].parse().ok()?, delta: t[2].parse().ok()?, len: t[3].parse().ok()? },
                 _ => return None,
             };
             h.ops.push(op);
